@@ -260,24 +260,17 @@ package interp
 //@ pred foldable(n): k0(n) != constant.Unknown && k1(n) != constant.Unknown && (k0(n) == constant.String) == (k1(n) == constant.String) && (k0(n) == constant.Bool) == (k1(n) == constant.Bool) && (k0(n) == constant.Bool || k0(n) == constant.Complex || k1(n) == constant.Complex ==> n.action == aEqual || n.action == aNotEqual)
 // The operands may be typed constants as well (const a int = 3; const ok = a == 3): constOperand gives the
 // go/constant value of an operand node — the value itself when it is untyped, the constant made of the typed
-// value otherwise — and refuses what is not a constant: a node without a value, and a variable of a binary
-// package (bound by address: its value is only known at run time).
-//@ pred binVar(c): c.kind == selectorExpr && c.action == aGetSym && len(c.child) > 0 && c.rval.IsValid() && c.child[0].sym != nil && c.child[0].sym.kind == pkgSym && c.child[0].sym.typ != nil && c.child[0].sym.typ.cat == binPkgT && c.rval.CanAddr()
-//@ pred typedConst(c): c.rval.IsValid() && !binVar(c) && !isConstantValue(c.rval.Type())
-//@ func isBinVar(n) (r)
-//@   props C03
-//@   opt safety = off
-//@   requires [assume] n != nil && forall(k, 0, len(n.child), n.child[k] != nil)
-//@   ensures exactly-the-variables-of-binary-packages: r == binVar(n)
-//@   modifies nothing
+// value otherwise — and refuses what is not a constant: a node without a value (variables of the script and,
+// since the host-variable repair, variables of binary packages have none: their value is only known at run time).
+//@ pred typedConst(c): c.rval.IsValid() && !isConstantValue(c.rval.Type())
 //@ func constOperand(n) (c, ok)
 //@   props C03
 //@   opt safety = off
 //@   opt opaque-calls = *
 //@   opt opaque-havoc = none
 //@   requires [assume] n != nil && forall(k, 0, len(n.child), n.child[k] != nil)
-//@   ensures no-value-or-a-host-variable-is-not-a-constant: !n.rval.IsValid() || binVar(n) ==> !ok
-//@   ensures untyped-constant-is-itself: n.rval.IsValid() && !binVar(n) && isConstantValue(n.rval.Type()) ==> c == vConstantValue(n.rval) && ok == (constKind(c) != constant.Unknown)
+//@   ensures a-node-without-a-value-is-not-a-constant: !n.rval.IsValid() ==> !ok
+//@   ensures untyped-constant-is-itself: n.rval.IsValid() && isConstantValue(n.rval.Type()) ==> c == vConstantValue(n.rval) && ok == (constKind(c) != constant.Unknown)
 //@   ensures typed-integer-by-value: typedConst(n) && isIntKind(rvKind(n.rval)) ==> ok && constKind(c) == constant.Int && constInt(c) == rvInt(n.rval)
 //@   ensures typed-bool-by-value: typedConst(n) && rvKind(n.rval) == reflect.Bool ==> ok && constKind(c) == constant.Bool && constBoolVal(c) == rvBool(n.rval)
 //@   ensures typed-string-by-value: typedConst(n) && rvKind(n.rval) == reflect.String ==> ok && constKind(c) == constant.String && constStringVal(c) == rvString(n.rval)
@@ -292,12 +285,12 @@ package interp
 //@   requires [assume] forall(k, 0, len(n.child[0].child), n.child[0].child[k] != nil) && forall(k, 0, len(n.child[1].child), n.child[1].child[k] != nil)
 //@   let c0: n.child[0]
 //@   let c1: n.child[1]
-//@   ensures comparison-of-two-constants-is-folded: cmpAction(n.action) && old(bothConst(n)) && old(!binVar(c0) && !binVar(c1)) && old(foldable(n)) ==> n.rval.IsValid() && rvBool(n.rval) == constCompare(old(c0v(n)), constCmp[n.action], old(c1v(n)))
+//@   ensures comparison-of-two-constants-is-folded: cmpAction(n.action) && old(bothConst(n)) && old(foldable(n)) ==> n.rval.IsValid() && rvBool(n.rval) == constCompare(old(c0v(n)), constCmp[n.action], old(c1v(n)))
 //@   ensures typed-integer-constants-are-compared-by-value: cmpAction(n.action) && old(typedConst(c0) && typedConst(c1)) && old(isIntKind(rvKind(c0.rval)) && isIntKind(rvKind(c1.rval))) ==> n.rval.IsValid() && rvBool(n.rval) == tokCmpInt(constCmp[n.action], old(rvInt(c0.rval)), old(rvInt(c1.rval)))
-//@   ensures typed-integer-against-untyped-integer: cmpAction(n.action) && old(typedConst(c0)) && old(isIntKind(rvKind(c0.rval))) && old(!binVar(c1) && isConstantValue(c1.rval.Type())) && old(k1(n)) == constant.Int ==> n.rval.IsValid() && rvBool(n.rval) == tokCmpInt(constCmp[n.action], old(rvInt(c0.rval)), old(constInt(vConstantValue(c1.rval))))
+//@   ensures typed-integer-against-untyped-integer: cmpAction(n.action) && old(typedConst(c0)) && old(isIntKind(rvKind(c0.rval))) && old(isConstantValue(c1.rval.Type())) && old(k1(n)) == constant.Int ==> n.rval.IsValid() && rvBool(n.rval) == tokCmpInt(constCmp[n.action], old(rvInt(c0.rval)), old(constInt(vConstantValue(c1.rval))))
 //@   ensures typed-strings-and-bools-are-compared-by-value: (n.action == aEqual || n.action == aNotEqual) && old(typedConst(c0) && typedConst(c1)) && old((rvKind(c0.rval) == reflect.String && rvKind(c1.rval) == reflect.String) || (rvKind(c0.rval) == reflect.Bool && rvKind(c1.rval) == reflect.Bool)) ==> n.rval.IsValid() && rvBool(n.rval) == ite(old(rvKind(c0.rval)) == reflect.String, old(rvString(c0.rval)) == old(rvString(c1.rval)), old(rvBool(c0.rval)) == old(rvBool(c1.rval))) == (n.action == aEqual)
-//@   ensures not-a-comparison-or-a-host-variable-is-left-alone: !cmpAction(n.action) || old(binVar(c0)) || old(binVar(c1)) ==> n.rval == old(n.rval)
-//@   canary cmpAction(n.action) && old(bothConst(n)) && old(!binVar(c0) && !binVar(c1)) && old(foldable(n)) ==> rvBool(n.rval) == constCompare(old(c1v(n)), constCmp[n.action], old(c0v(n)))
+//@   ensures not-a-comparison-is-left-alone: !cmpAction(n.action) ==> n.rval == old(n.rval)
+//@   canary cmpAction(n.action) && old(bothConst(n)) && old(foldable(n)) ==> rvBool(n.rval) == constCompare(old(c1v(n)), constCmp[n.action], old(c0v(n)))
 
 // x && y and x || y of two boolean constants are constants (Go spec, Constant expressions): the node gets
 // the value, so that `const both = a && b` is defined by it.
